@@ -124,7 +124,11 @@ func (b *c08Builder) revs() {
 	r := b.r
 	n := r.Range(1, 2)
 	for i := 1; i <= n; i++ {
-		b.add(c08Obj{Kind: "rev", Name: fmt.Sprintf("p%d", i), Fins: b.fins(revision.VerifC08Finalizer, 90, 15), Del: r.Chance(80, 100), Paused: r.Chance(5, 100)})
+		// desiredState and skipDependencyResolution are drawn independently of Lock
+		// membership: a revision marked Inactive whose deactivation never completed, or one
+		// that switched dependency resolution off after resolving, is still in the Lock.
+		b.add(c08Obj{Kind: "rev", Name: fmt.Sprintf("p%d", i), Fins: b.fins(revision.VerifC08Finalizer, 90, 15), Del: r.Chance(80, 100), Paused: r.Chance(5, 100),
+			Inactive: r.Chance(40, 100), SkipDeps: r.Chance(30, 100)})
 	}
 	if r.Chance(85, 100) {
 		pk := []string{}
@@ -527,7 +531,7 @@ func c08ExhWorlds() []c08Scn {
 		{Running: run, Objs: []c08Obj{xrd, crdX, with(mk("crd", c08ClaimCRD, []string{}, false), func(o *c08Obj) { o.Owners = []c08Owner{{Idx: -1, Ctrl: true}} })}},
 		// 7: two package revisions and the Lock; a composed Usage with its using and used resources
 		{Running: []string{}, Objs: []c08Obj{
-			mk("rev", "p1", []string{revision.VerifC08Finalizer}, true),
+			with(mk("rev", "p1", []string{revision.VerifC08Finalizer}, true), func(o *c08Obj) { o.Inactive, o.SkipDeps = true, true }),
 			with(mk("lock", revision.VerifC08LockName, []string{}, false), func(o *c08Obj) { o.Pkgs = []string{"p1", "p2"} }),
 			with(mk("usage", "u1", []string{usagectrl.VerifC08Finalizer}, true), func(o *c08Obj) { o.Ref, o.Of, o.Flag = "using1", "used1", true }),
 			mk("res", "using1", []string{}, false),
